@@ -13,9 +13,16 @@ import traceback
 sys.path.insert(0, os.path.dirname(os.path.abspath(__file__)))
 import vlib  # noqa: E402
 
-FAMILY = {
-    "C01": "can", "C02": "can", "C17": "can",
-}
+def families():
+    """checks/<family>.py declares PROPERTIES = {id: {...manifest text...}}"""
+    fam = {}
+    d = os.path.join(os.path.dirname(os.path.abspath(__file__)), "checks")
+    for fn in sorted(os.listdir(d)):
+        if fn.endswith(".py") and not fn.startswith("_"):
+            mod = importlib.import_module("checks." + fn[:-3])
+            for pid in getattr(mod, "PROPERTIES", {}):
+                fam[pid] = mod
+    return fam
 
 
 def main():
@@ -28,10 +35,11 @@ def main():
     replay = None
     if "--replay" in sys.argv:
         replay = sys.argv[sys.argv.index("--replay") + 1]
-    if pid not in FAMILY:
+    fam = families()
+    if pid not in fam:
         print("unknown property %s" % pid)
         return 2
-    mod = importlib.import_module("checks." + FAMILY[pid])
+    mod = fam[pid]
     res = vlib.Result(pid, tier, seed)
     try:
         mod.run(res, replay=replay)
